@@ -1,4 +1,85 @@
-import CgreenModel.Model.Runner
+import CgreenModel.Lemmas.Runner
+/-!
+# C03 — reported totals equal what happened; every result is attributed to its test
+-/
 namespace Cgreen
-theorem C03_placeholder : True := trivial
+
+/-- The totals the run accumulates are exactly what happened, for every tree. -/
+theorem C03_totals (cap : Nat) (hcap : 0 < cap) (m : Mode) (t : Tree) (hok : t.AllOk cap m) :
+    (run ⟨cap, m⟩ t).tot = t.truth cap := (run_spec cap hcap m t hok).2.2.1
+
+/-- Everything a reporter can show that does not depend on process ids — failure messages, exception
+lines, per-test credit, per-suite lines, totals — is the list computed from the tree alone:
+each line carries the path of the test or suite that produced it, in execution order. -/
+theorem C03_results (cap : Nat) (hcap : 0 < cap) (m : Mode) (t : Tree) (hok : t.AllOk cap m) :
+    (run ⟨cap, m⟩ t).out.filter Out.isResult = t.results cap [] ++ [Out.totals (t.truth cap)] :=
+  (run_spec cap hcap m t hok).2.2.2
+
+/-- The channel is empty when the run ends: nothing was left over to be credited to anybody else. -/
+theorem C03_channel_empty (cap : Nat) (hcap : 0 < cap) (m : Mode) (t : Tree) (hok : t.AllOk cap m) :
+    (run ⟨cap, m⟩ t).pipe = [] := (run_spec cap hcap m t hok).2.1
+
+/-- Sum of the per-suite lines. -/
+def sumSuiteEnds : List Out → Cnt
+  | [] => 0
+  | .suiteEnd _ c :: l => c + sumSuiteEnds l
+  | _ :: l => sumSuiteEnds l
+
+theorem sumSuiteEnds_append (a b : List Out) : sumSuiteEnds (a ++ b) = sumSuiteEnds a + sumSuiteEnds b := by
+  induction a with
+  | nil => simp [sumSuiteEnds]
+  | cons x a ih => cases x <;> simp [sumSuiteEnds, ih, Cnt.add_assoc]
+
+theorem sumSuiteEnds_test (cap : Nat) (su td : Bool) (tp : List String) (t : Test) :
+    sumSuiteEnds (t.results cap su td tp) = 0 := by
+  unfold Test.results
+  by_cases hx : t.xskip = true
+  · simp [hx, sumSuiteEnds]
+  · by_cases hf : t.abnormal cap su td = true <;> simp [hx, hf, sumSuiteEnds]
+
+theorem sumSuiteEnds_tests (cap : Nat) (su td : Bool) (path : List String) (ts : List Test) :
+    sumSuiteEnds (resultsTests cap su td path ts) = 0 := by
+  induction ts with
+  | nil => simp [resultsTests, sumSuiteEnds]
+  | cons t ts ih => simp [resultsTests, sumSuiteEnds_append, sumSuiteEnds_test, ih]
+
+mutual
+theorem sumSuiteEnds_tree (cap : Nat) : ∀ (t : Tree) (parent : List String),
+    sumSuiteEnds (t.results cap parent) = t.truth cap
+  | .node name su td subs tests, parent => by
+    simp [Tree.results, Tree.truth, sumSuiteEnds_append, sumSuiteEnds_tests, sumSuiteEnds,
+      sumSuiteEnds_subs cap subs (parent ++ [name])]
+theorem sumSuiteEnds_subs (cap : Nat) : ∀ (cs : List Tree) (path : List String),
+    sumSuiteEnds (resultsSubs cap path cs) = truthSubs cap cs
+  | [], _ => by simp [resultsSubs, truthSubs, sumSuiteEnds]
+  | c :: cs, path => by
+    simp [resultsSubs, truthSubs, sumSuiteEnds_append, sumSuiteEnds_tree cap c path, sumSuiteEnds_subs cap cs path]
+end
+
+/-- The per-suite subtotals a reporter prints add up to the grand total it prints. -/
+theorem C03_subtotals (cap : Nat) (hcap : 0 < cap) (m : Mode) (t : Tree) (hok : t.AllOk cap m) :
+    sumSuiteEnds ((run ⟨cap, m⟩ t).out.filter Out.isResult) = (run ⟨cap, m⟩ t).tot := by
+  rw [C03_results cap hcap m t hok, C03_totals cap hcap m t hok]
+  simp [sumSuiteEnds_append, sumSuiteEnds_tree, sumSuiteEnds]
+
+/-- Per-test status (CUTE `#success`, XML `<testcase>` children): the credit the parent gives a test is
+that test's own truth, so "successful" means exactly "no failure and no exception of that test". -/
+theorem C03_status (cap : Nat) (su td : Bool) (tp : List String) (t : Test) :
+    ∀ d st, Out.testEnd tp d st ∈ t.results cap su td tp → d = t.truth cap su td := by
+  intro d st h
+  unfold Test.results at h
+  by_cases hx : t.xskip = true
+  · simp [hx] at h; simp [Test.truth, hx, h.1]
+  · by_cases hf : t.abnormal cap su td = true <;> simp [hx, hf] at h <;> exact h.1
+
+/-- The reader as it was at the pinned commit (F01): after a test that called `skip_test()` the
+completion notice stays in the channel — the witness that made the totals theorem unprovable. -/
+theorem C03_F01_witness : (readResultsOld 0 [.skipped, .pass, .completion]).2.1 = [.pass, .completion] := by decide
+
+/-- The repaired reader on the same input drains the test's records. -/
+theorem C03_F01_repaired : (readResults 0 false [.skipped, .pass, .completion]).2.1 = [] := by decide
+
+example : (run ⟨4, .fork⟩ (.node "top" false false [] [{ name := "t", body := [.check true, .check true, .check true, .check false, .check true] }])).tot
+    = ⟨3, 1, 0, 1⟩ := by decide
+
 end Cgreen
